@@ -364,7 +364,9 @@ func (c *Conn) Read(b []byte) (int, error) {
 			_, inner, err := c.handleClientHello(r, true)
 			if err != nil {
 				c.readErr = err
-				convertErrorsToAlerts(c, err)
+				// The alert goes straight to the transport: Write and its
+				// buffer may be in use by another goroutine.
+				convertErrorsToAlerts(c.Conn, err)
 				return 0, err
 			}
 			r, c.readErr = inner.Marshal()
